@@ -2,9 +2,11 @@ import DoitModel.Proofs.C08Conf1
 /-! # C08 (I10) with dynamic `calc_dep` edges, step 1: the relational denotation `Dyn.DenOf`
 
 The dependency set of a task is no longer read off the task table: the calc_deps of `n` are the least set containing
-`calcDep n` and closed under what its executed / up-to-date members deliver (`values['calc_dep']`), and the task_deps
-are `taskDep n` plus what those members deliver (`values['task_dep']`, owners of `values['file_dep']`).  Which members
-are executed / up-to-date is given by their own outcome — the derivation is bottom-up, and no acyclicity hypothesis is
+`calcDep n` and closed under what its members deliver (`values['calc_dep']`), and the task_deps are `taskDep n` plus
+what those members deliver (`values['task_dep']`, owners of `values['file_dep']`).  What a member `c` delivers is
+`delivOf inp c d` (`Model/RunData.lean`) for its own outcome `d`: `calcRes c` when it was executed successfully or is
+up-to-date, `calcResFail c` when it failed DURING its execution (`startedFail`: `_process_calc_dep_results` does not
+look at `run_status`), nothing otherwise.  The outcome of the members is their own derived outcome — the derivation is bottom-up, and no acyclicity hypothesis is
 needed: on a cyclic graph no derivation exists.  `Dyn.DenOf` is functional (`DenOf.functional`), depends on the task
 table and the oracle only (`DenOf.same`), and coincides with `Run.DenOf` on graphs without calc_dep (`DenOf_noCalc`).
 
@@ -16,8 +18,8 @@ inductive CalcOf (inp : RunInput) (dd : Name → Den) (n : Name) : Name → Prop
   | static {c : Name} : c ∈ inp.calcDep n → CalcOf inp dd n c
   | deliv {c x : Name} : CalcOf inp dd n c → x ∈ (delivOf inp c (dd c)).calcs → CalcOf inp dd n x
 
-/-- every dependency `select_task(n)` looks at in its first pass: task_deps, calc_deps, and what the executed /
-    up-to-date calc_deps deliver as task_deps -/
+/-- every dependency `select_task(n)` looks at in its first pass: task_deps, calc_deps, and what the calc_deps
+    deliver as task_deps (`delivOf`) -/
 def DepOf (inp : RunInput) (dd : Name → Den) (n x : Name) : Prop :=
   x ∈ inp.taskDep n ∨ CalcOf inp dd n x ∨
   ∃ c, CalcOf inp dd n c ∧ (x ∈ (delivOf inp c (dd c)).tasks ∨ x ∈ (delivOf inp c (dd c)).files)
@@ -111,7 +113,8 @@ theorem DenOf.functional {inp : RunInput} {n : Name} {a b : Den} (ha : DenOf inp
       have h1' : stage1L inp dd' L' n = .run := by rw [← stage1L_congr sub eT]; exact h1
       exact ihS h1 d hd (hS' h1' d hd)
 
-/-- the fields of the input the denotation reads: those of `SameTasks` and what calc tasks deliver -/
+/-- the fields of the input the denotation reads: those of `SameTasks` and what calc tasks deliver (executed
+    successfully: `calcRes`; failed during execution: `calcResFail`) -/
 structure SameTasksC (a b : RunInput) : Prop where
   base : SameTasks a b
   calcRes : a.calcRes = b.calcRes
